@@ -39,3 +39,17 @@ Theorem C13_clone_yields_the_same_state : forall cfg d qs st st' obs, RInv d st 
       (obs = [1%N; N.of_nat (length (worlds st))] /\ worlds st' = worlds st ++ [Some w] /\ cur st' = cur st)
   end.
 Proof. exact step_clone_spec. Qed.
+
+From Gecs Require Import LoopFacts HistRun.
+
+(** Independence: every operation of the run language touches at most one existing world; every other
+    world (in particular the original of a clone when the clone is operated on, and conversely) is
+    left exactly as it was, bit for bit. *)
+Theorem C13_an_operation_touches_one_world : forall cfg d qs st o st' obs,
+  wf_decl d -> wf_op d o -> RInv d st -> hist_ok_step st o = true -> step cfg d qs st o = Some (st', obs) ->
+  exists c, forall i, i <> c -> i < length (worlds st) -> worlds st' !! i = worlds st !! i.
+Proof.
+  intros cfg d qs st o st' obs Hwf Ho HR Hok Hs.
+  pose proof (step_trans true true cfg d qs st o Hwf Ho HR Hok (flags_ok_true o)) as Ht. rewrite Hs in Ht.
+  exact (proj2 (proj2 (proj2 (proj2 Ht)))).
+Qed.
